@@ -323,6 +323,11 @@ def taskMetrics : Task → Level → List Metric
 def TableAgrees (task : Task) (lvl : Level) (t : List Row) : Bool :=
   t.map (·.fn) == (taskMetrics task lvl).map (·.fn)
 
+/-- the table of the code lists the same functions as the model's driver, in any order (the order
+    of the metrics within a list is not part of the property) -/
+def TableAgreesPerm (task : Task) (lvl : Level) (t : List Row) : Bool :=
+  (t.map (·.fn)).isPerm ((taskMetrics task lvl).map (·.fn))
+
 /-! ### what a task returns -/
 
 /-- a metric list as `(term label, value)` -/
